@@ -310,7 +310,7 @@ Section WithEnv.
         * rewrite map_app. cbn [map]. unfold g. rewrite add_target_path. cbn [r_path].
           apply NoDup_app_single; auto.
         * apply Forall_app. split; auto. constructor; [apply add_target_nonempty | constructor].
-    - destruct (glob_ok path); [|discriminate]. intros H; inversion H; subst t'.
+    - destruct (glob_ok _); [|discriminate]. destruct (glob_ok path); [|discriminate]. intros H; inversion H; subst t'.
       apply lookup_none in EL as [EL _]. destruct Hinv as [H1 H2]. split.
       + rewrite map_app. cbn [map fst]. apply NoDup_app_single; auto.
       + apply Forall_app. split; auto. constructor; [|constructor]. cbn [snd]. apply fresh_ok.
@@ -440,7 +440,7 @@ Section WithEnv2.
         rewrite (upd_host_mid h _ a _ b Hn).
         rewrite (upd_route_mid path g rs _ [] EF) by (now rewrite Hg).
         now rewrite Hi.
-    - destruct (glob_ok path); [|discriminate]. intros H; inversion H; subst t1. clear H.
+    - destruct (glob_ok _); [|discriminate]. destruct (glob_ok path); [|discriminate]. intros H; inversion H; subst t1. clear H.
       apply lookup_none in EL as [EL _].
       rewrite (lookup_mid h t _ [] EL).
       cbn [find]. rewrite Hg. cbn [r_path]. rewrite beq_refl.
@@ -484,7 +484,7 @@ Section WithEnv2.
         left. exists (flat a ++ flat_routes h rs), (flat b).
         rewrite !flat_app, !flat_cons, !flat_routes_app. unfold add_target. cbn [r_targets existsb r_path app].
         fold nt. cbn [flat_routes flat_map r_path r_targets map app]. rewrite <- !app_assoc. cbn [app]. auto.
-    - destruct (glob_ok path); [|discriminate]. intros H; inversion H; subst t1. clear H.
+    - destruct (glob_ok _); [|discriminate]. destruct (glob_ok path); [|discriminate]. intros H; inversion H; subst t1. clear H.
       left. exists (flat t), []. rewrite flat_app, app_nil_r. split; reflexivity.
   Qed.
 
@@ -1000,7 +1000,7 @@ Section Total.
     unfold apply_def. destruct (d_cmd d).
     - unfold add_route. destruct (hostpath _). destruct (d_src d); [discriminate|].
       destruct (d_dst d); [discriminate|]. destruct (canon _); [|discriminate].
-      destruct (lookup _ _); [destruct (find _ _)|]; try destruct (glob_ok _); discriminate.
+      destruct (lookup _ _); [destruct (find _ _)|]; repeat (try destruct (glob_ok _)); discriminate.
     - unfold del_route. destruct (d_tags d); [|discriminate].
       destruct (d_src d), (d_dst d); try discriminate;
         try (destruct (canon _); [|discriminate]); destruct (hostpath _); cbn zeta; destruct (get_route _ _ _); discriminate.
